@@ -1246,8 +1246,15 @@ class C11(PropBase):
                 "deleted/replaced/inserted, the match as prefix/suffix/infix, with a leading or trailing newline, "
                 "account-shaped names); boundary classes literal-part (pattern = proper prefix/suffix/infix of an account), "
                 "own-anchors, top-alt, wrapper-text, dotstar, empty, outside-subset, invalid, unbalanced, text-mutation. "
-                "peel: wrapped/half-wrapped/double-wrapped strings. selrun: journals from gen/common.py with selector lists "
-                "(keys present/absent/empty; report-wide fallback) derived from the journal's account names. "
+                "peel: wrapped/half-wrapped/double-wrapped strings. selrun: journals (AST for the model, rendered text for the "
+                "implementation) with selector lists for balance / register / equity and the report-wide list (keys "
+                "present/absent/empty). Boundary classes on a generated account tree (parent with children, a sibling that "
+                "has the parent as a string prefix, a second root, one or two commodities): pattern = proper prefix / suffix / "
+                "infix of an account name; own anchors; top-level alternation; '.*' forms; the empty pattern; parent listed "
+                "without its children and children without the parent (tree sums must stay those of the full tree); "
+                "selectors hiding every row of a commodity (its delta line and equity transaction disappear); selected own "
+                "sums cancelling; per-report list vs report-wide list (absent / empty / own). Plus journals of gen/common.py "
+                "with selectors derived from their account names (rnd-* kinds). "
                 "non-trivial = some haystack is found by plain search but not matched as a whole while another is "
                 "(rematch) / a report lists a non-empty proper subset of the unselected rows (selrun); "
                 "distinct = sha256 of the implementation case")
@@ -1257,7 +1264,10 @@ class C11(PropBase):
             "modelled, not verified: the regex crate outside the modelled subset (model answers UNDEF; F16 lives there); "
             "Unicode meaning of \\d \\w \\s (model is ASCII, UNDEF on non-ASCII haystacks); the crate's nest/size limits; "
             "TOML decoding of selector lists",
-            "the python oracle trusts python's `re` on the translated subset (explicit ASCII classes, \\A/\\Z anchors)"]
+            "the python oracle trusts python's `re` on the translated subset (explicit ASCII classes, \\A/\\Z anchors)",
+            "selrun: decimal arithmetic outside the exact domain is UNDEF in the model (C02/C03/C10's domain; the generated "
+            "amounts stay inside it); register entries are compared by value, balance and equity figures text-exact; "
+            "no price conversion, no audit metadata in this family"]
 
     def assumptions(self):
         return ["selector patterns are valid regular expressions on their own (the property's quantifier); a pattern that only "
